@@ -29,7 +29,7 @@ def dspecRun (r : RSpec) (ops : List DOp) : RSpec := ops.foldl dspecStep r
 /-- what each operation of the union alphabet needs -/
 def ValidDOp (root : List Nat) (r : RSpec) : DOp → Prop
   | .r o => ValidROp root r o
-  | .discardFile => IndexClean r.sp
+  | .discardFile => WorkOK r.sp r.sp.st.index
   | .restoreFile => WorkOK r.sp r.sp.st.index
   | .unstage => True
   | .unstageAll => True
